@@ -31,6 +31,11 @@ class _Rewrite(ast.NodeTransformer):
       names=[a.id for a in n.args[:-1]]; body=s.visit(n.args[-1])
       gens=[ast.comprehension(ast.Name(nm,ast.Store()),ast.Name('__irange',ast.Load()),[],0) for nm in names]
       return ast.Call(ast.Name('all',ast.Load()),[ast.GeneratorExp(body,gens)],[])
+    if isinstance(n.func,ast.Name) and n.func.id in('forall','exists') and len(n.args)>=2 and all(isinstance(a,ast.Name) for a in n.args[:-1]):
+      # object quantifiers range natively over the finite universe __U (every object occurring in the arguments and the result)
+      names=[a.id for a in n.args[:-1]]; body=s.visit(n.args[-1])
+      gens=[ast.comprehension(ast.Name(nm,ast.Store()),ast.Name('__U',ast.Load()),[],0) for nm in names]
+      return ast.Call(ast.Name('all' if n.func.id=='forall' else 'any',ast.Load()),[ast.GeneratorExp(body,gens)],[])
     if isinstance(n.func,ast.Name) and n.func.id=='fresh':
       return ast.Call(ast.Name('__fresh',ast.Load()),[s.visit(a) for a in n.args],[])
     return s.generic_visit(n)
@@ -120,6 +125,20 @@ def _snap(v,memo=None):
     except Exception: pass
   return o
 
+class CallBudgetExceeded(BaseException):
+  """the real function did not return within the per-call wall-clock budget of the native evaluator"""
+CALL_BUDGET_S=int(os.environ.get('VERIF_CALL_BUDGET','10'))
+def _with_budget(fn,argv):
+  import signal, threading, time
+  if threading.current_thread() is not threading.main_thread(): return fn(*argv)
+  old=signal.getsignal(signal.SIGALRM); remaining=signal.alarm(0); t0=time.time()
+  def h(sig,frm): raise CallBudgetExceeded(f"no result after {CALL_BUDGET_S} s")
+  signal.signal(signal.SIGALRM,h); signal.alarm(CALL_BUDGET_S)
+  try: return fn(*argv)
+  finally:
+    signal.alarm(0); signal.signal(signal.SIGALRM,old)
+    if remaining: signal.alarm(max(1,int(remaining-(time.time()-t0))))
+
 class Outcome:
   def __init__(s,**k): s.__dict__.update(k)
   def __repr__(s): return repr(s.__dict__)
@@ -130,7 +149,7 @@ def check_call(contract, args, repo, ns=None):
   ns=dict(ns or macro_namespace())
   fn=contract.native(repo) if getattr(contract,'native',None) else resolve(repo,contract.key)
   tags={p:native_label(v) for p,v in args.items()}
-  env=dict(ns); env.update(args)
+  env=dict(ns); env.update(args); env['__U']=_universe(list(args.values()))
   case=None
   for cs in contract.cases:
     if not cs.applies(tags): continue
@@ -145,8 +164,8 @@ def check_call(contract, args, repo, ns=None):
   params=list(args)
   va=contract.vararg() if hasattr(contract,'vararg') else None
   try:
-    if va is not None: result=fn(*[args[p] for p in params if p!=va],*args[va])
-    else: result=fn(*[args[p] for p in params])
+    if va is not None: result=_with_budget(fn,[args[p] for p in params if p!=va]+list(args[va]))
+    else: result=_with_budget(fn,[args[p] for p in params])
   except BaseException as e: exc=e
   failed=[]
   mods=set(case.modifies if case.modifies is not None else contract.modifies)
@@ -170,7 +189,10 @@ def check_call(contract, args, repo, ns=None):
   if case.raises is not None and not case.raises_or_ensures:
     failed.append(f"returned {result!r} but the case '{case.name}' requires an exception ({case.raises})")
     return Outcome(case=case.name,ok=False,failed=failed,result=repr(result),skipped=False)
-  env2=dict(ns); env2.update(args); env2['result']=result
+  env2=dict(ns); env2.update(args)
+  if getattr(contract,'native_post',None):        # adapt the native result to the contract's abstraction and supply native ghost functions
+    result,extra=contract.native_post(args,result); env2.update(extra)
+  env2['result']=result; env2['__U']=_universe(list(args.values())+[result])
   env2['__hasslot']=_hasslot; env2['__fresh']=lambda x: id(x) not in pre_ids
   env2['__irange']=range(-2,max([len(v) for v in args.values() if isinstance(v,(bytearray,bytes,list))]+[8])+3)
   for cl in case.clauses():
@@ -184,6 +206,26 @@ def check_call(contract, args, repo, ns=None):
     if not v: failed.append(f"clause `{ast.unparse(cl)}` is false")
   frame('')
   return Outcome(case=case.name,ok=not failed,failed=failed,result=repr(result),skipped=False)
+
+def _universe(vals):
+  out=[]; seen=set()
+  def add(x):
+    try: h=(type(x).__name__,x) if isinstance(x,(int,str,bool,type(None))) else id(x)
+    except Exception: h=id(x)
+    if h not in seen: seen.add(h); out.append(x)
+  def walk(v,d=0):
+    if d>4: return
+    if isinstance(v,dict):
+      for k,x in v.items(): add(k); walk(x,d+1)
+    elif isinstance(v,(set,frozenset,list,tuple)):
+      for x in v:
+        if isinstance(x,(set,frozenset,list,dict)): walk(x,d+1)
+        else:
+          add(x)
+          if isinstance(x,tuple): walk(x,d+1)
+    else: add(v)
+  for v in vals: walk(v)
+  return out
 
 def build_value(t,name,model,repo,reg):
   """native value of spec type t from a solver model (dict symbol-name -> int/bool)."""
